@@ -2204,9 +2204,9 @@ static program_t *epilog ()
   if (num_parse_error > 0 || inherit_file)
     {
       /* don't print these; they can be wrong, since we didn't parse the
-         entire file */
-      if (pragmas & PRAGMA_WARNINGS)
-        remove_overload_warnings (0);
+         entire file. They were collected while "#pragma warnings" was on, which
+         it need not be any more: dropped in any case, or the next file gets them */
+      remove_overload_warnings (0);
       clean_parser ();
       end_new_file ();
       free_string (current_file);
@@ -2214,8 +2214,9 @@ static program_t *epilog ()
       return 0;
     }
 
-  if (pragmas & PRAGMA_WARNINGS)
-    show_overload_warnings ();
+  /* yywarn() is silent when the file has ended with warnings switched off; the
+   * list is emptied in any case */
+  show_overload_warnings ();
 
   /*
    * Define the __INIT function, but only if there was any code
